@@ -36,7 +36,7 @@ LEVEL_NOTE = "Trusted: hv.terms oracle and the snapshot function; only what the 
 ASSUMPTIONS = [
     "mutation-insensitivity is asserted only for values reached through Sequence/Set/frozenset/Mapping/tuple annotations; "
     "Any/Callable attributes keep the object they were given",
-    "hashing is not claimed and not checked; updated(x=MISSING) is not generated",
+    "hashing is not claimed and not checked; updated(x=MISSING) is judged only for attributes without a class-level default (stored as MISSING when the annotation admits it, rejected otherwise)",
 ]
 REQUIRED_CLASSES = ["mutate-original-container", "updated-partial", "cross-class-eq", "deepcopy", "setattr"]
 
@@ -226,6 +226,12 @@ def run_case(case) -> Outcome:
             except Exception:  # noqa: BLE001
                 continue
             confs = {n: TT.conforms(terms[n], v, env) for n, v in repl.items()}
+            defaults = {a["name"]: a.get("default") for a in cls["attrs"]}
+            if any(v is MISSING and defaults.get(n) is not None for n, v in repl.items()):
+                # MISSING given for an attribute that has a class-level default: "use the default" and "store MISSING"
+                # are both defensible readings - not judged
+                out.unspecified.append("updated-with-MISSING-for-a-defaulted-attribute")
+                continue
             kwargs = dict(repl)
             if op.get("unknown"):
                 kwargs["zz_unknown"] = 1
@@ -246,7 +252,11 @@ def run_case(case) -> Outcome:
                     pass  # allowed only if nothing changes; checked attribute-wise below
                 for n in names:
                     got = getattr(y, n, MISSING)
-                    if n in repl and repl[n] is not MISSING:
+                    if n in repl and repl[n] is MISSING:
+                        # an attribute without class default that admits Missing: naming it with MISSING stores MISSING
+                        if confs[n] is True and got is not MISSING:
+                            out.violate("updated", "C04.updated/replacement-not-stored/MISSING", f"{src}{n}: updated({n}=MISSING) -> {got!r}")
+                    elif n in repl:
                         if confs[n] is True and TT.stored_ok(terms[n], repl[n], got, env) is False:
                             out.violate("updated", "C04.updated/replacement-not-stored", f"{src}{n}: {repl[n]!r} -> {got!r}")
                     else:
@@ -604,10 +614,15 @@ def strategy(tier):
             T_("missing"),
             T_("union", alts=[T_("seq", of=T_("int")), T_("missing")]),
             T_("union", alts=[T_("missing"), T_("str")]),
+            T_("int"),  # a required attribute that does NOT admit Missing: updated(x=MISSING) must be rejected
         ]
         picks = draw(st.lists(st.sampled_from(terms), min_size=1, max_size=3))
         attrs, args = [], {}
         for i, t in enumerate(picks):
+            if t["t"] == "int":
+                attrs.append({"name": f"a{i}", "term": t, "default": None})
+                args[f"a{i}"] = V_("int", x=3)
+                continue
             with_default = draw(st.booleans())
             attrs.append({"name": f"a{i}", "term": t, "default": V_("missing") if with_default else None})
             given = draw(st.sampled_from(["omit", "omit", "value"]))
@@ -616,8 +631,11 @@ def strategy(tier):
                 args[f"a{i}"] = {"int": V_("int", x=3), "str": V_("str", x="s"), "seq": V_("list", items=ints(1, 2))}[alt["t"]]
             else:
                 args[f"a{i}"] = None
+        which = draw(st.integers(0, len(picks) - 1))
         script = [{"o": draw(st.sampled_from(["copy", "deepcopy"]))}, {"o": "eq", "other": "twin", "attr": 0, "val": None},
                   {"o": "updated", "repl": {}, "unknown": draw(st.booleans())}, {"o": draw(st.sampled_from(["copy", "deepcopy"]))},
+                  # naming an attribute with MISSING: stored as MISSING (no class default) - or rejected by a type that does not admit it
+                  {"o": "updated", "repl": {str(which): V_("missing")}, "unknown": False},
                   {"o": "inplace", "target": draw(st.sampled_from(["copy", "deepcopy", "updated"]))}]  # fmt: skip
         return {"cls": {"generic": False, "targ": None, "attrs": attrs}, "args": args, "script": script}
 
